@@ -94,6 +94,15 @@ def gen_problem(rng, families=("lin", "quad", "trig", "pole", "incons", "rankdef
     for i in range(n):
         if lim[i] is not None and rng.random() < 0.3 and x0[i] != 0:
             lim[i] = (0.0, lim[i][1]) if x0[i] > 0 else (lim[i][0], rng.choice([0.0, -0.0, 0]))
+    # start points a few parts per million (or a few ulps) INSIDE a limit: legal, and where any "close enough to the limit"
+    # shortcut in the knob <-> solver-unit conversions shows
+    if rng.random() < 0.15:
+        for i in range(n):
+            if lim[i] is not None and rng.random() < 0.7:
+                side = 1 if rng.random() < 0.5 else 0
+                b = float(lim[i][side])
+                d = abs(b) * rng.choice([3e-6, 1e-7, 1e-9, 4e-16]) if b != 0 else rng.choice([1e-9, 1e-12])
+                x0[i] = b - d if side else b + d
     spec.update({
         "tars": tars, "x0": x0, "limits": lim,
         "max_step": [rng.choice([None, None, 0.1, 0.5, 2.0]) for _ in range(n)],
